@@ -15,6 +15,7 @@
 //        blr <g> | unblr <g>               blacklist / remove the CIDR range g (covers addresses 2g and 2g+1)
 //        restart                          a new IPManager over the same storage replaces the live one
 //        exp <k> | del <k> | strip <k>    credential expiry | config deleted | config without encrypted key
+//        claim <k> | bind <k> | ext <k>   UpdateClient with a UserID (ExpiresAt kept) | BindToUser (cleared) | ExtendExpiration(30)
 //        sec <k> <u|d|e|l>                stored secret becomes usable | undecryptable (sealed under another master key) |
 //                                         empty ciphertext | legacy (only the deprecated plaintext field)
 //   nc:  number of pre-provisioned clients (all usable) or one letter u|d|e|l per client
@@ -111,6 +112,7 @@ type stack struct {
 	cc      *managers.BuiltinCloudControl
 	cfg     *repos.ClientConfigRepository
 	skm     *security.SecretKeyManager
+	clientSvc interface{} // the client service behind the cloud control (claim / bind / extend go through its API)
 	stor    storage.Storage
 	skmAlt  *security.SecretKeyManager // another master key: what it seals the server cannot open
 	skmIss  *security.SecretKeyManager // the instance the anonymous-credential service seals new secrets with (same master key)
@@ -164,7 +166,9 @@ func newStack(ips []int, kinds string, nc int, secs string, burst int) (*stack, 
 	stor := storage.NewMemoryStorage(ctx)
 	st.stor = stor
 	repo := repos.NewRepository(stor)
-	st.cc = factories.NewBuiltinCloudControlWithRepo(ctx, managers.DefaultConfig(), stor, repo)
+	deps := factories.CreateBuiltinCloudControlDepsWithRepo(stor, repo, ctx)
+	st.clientSvc = deps.ClientService
+	st.cc = managers.NewBuiltinCloudControlWithDeps(ctx, managers.DefaultConfig(), stor, deps)
 	st.cfg = repos.NewClientConfigRepository(repo)
 	skm, err := security.NewSecretKeyManager(&security.SecretKeyConfig{MasterKey: masterKey})
 	if err != nil {
@@ -574,6 +578,39 @@ func (st *stack) step(ev []string) (string, error) {
 		}
 		st.skmIss.VerifSetBroken(ev[1] == "fail", bytes.Repeat([]byte{0x5a}, 32))
 		return "-", nil
+	case "claim", "bind", "ext":
+		k, err := argn(1)
+		if err != nil || k < 0 {
+			return "", fmt.Errorf("bad event %v", ev)
+		}
+		if k >= len(st.table) {
+			return "-", nil
+		}
+		id := st.table[k].id
+		if cfg, err := st.cfg.GetConfig(id); err != nil || cfg == nil {
+			return "-", nil // deleted
+		}
+		switch ev[0] {
+		case "claim": // the management API's update path: sets the UserID, keeps ExpiresAt
+			cl, err := st.cc.GetClient(id)
+			if err != nil || cl == nil {
+				return "", fmt.Errorf("claim: GetClient: %v", err)
+			}
+			cl.UserID = "verif-user"
+			return "-", st.cc.UpdateClient(cl)
+		case "bind":
+			svc, ok := st.clientSvc.(interface{ BindToUser(int64, string) error })
+			if !ok {
+				return "", fmt.Errorf("client service has no BindToUser")
+			}
+			return "-", svc.BindToUser(id, "verif-user")
+		default:
+			svc, ok := st.clientSvc.(interface{ ExtendExpiration(int64, int) error })
+			if !ok {
+				return "", fmt.Errorf("client service has no ExtendExpiration")
+			}
+			return "-", svc.ExtendExpiration(id, 30)
+		}
 	case "unexp":
 		k, err := argn(1)
 		if err != nil || k < 0 {
@@ -838,6 +875,24 @@ func genExhaustiveUnusable(depth int, emit func(string, string)) {
 	}
 }
 
+// third exhaustive family: the expiry gate against every other way a config changes (one connection, client #0)
+func genExhaustiveExpiry(depth int, emit func(string, string)) {
+	al := []string{"hs 0 c 0 -", "hs 0 c 0 h0.L0", "exp 0", "unexp 0", "claim 0", "bind 0", "ext 0", "sec 0 d", "sec 0 u"}
+	var rec func(prefix []string, d int)
+	rec = func(prefix []string, d int) {
+		if len(prefix) > 0 {
+			emit("seq ips 0,1 nc 2 rl 20 : "+strings.Join(prefix, " ; "), fmt.Sprintf("exhaustive-expiry-len%d", len(prefix)))
+		}
+		if d == 0 {
+			return
+		}
+		for _, e := range al {
+			rec(append(prefix[:len(prefix):len(prefix)], e), d-1)
+		}
+	}
+	rec(nil, depth)
+}
+
 func randKey(r *vc.Rand, ncl int, k int) string {
 	switch r.Intn(8) {
 	case 0:
@@ -1014,7 +1069,7 @@ func genRandom(r *vc.Rand, n int, emit func(string, string)) {
 			case x < 87:
 				evs = append(evs, "issue "+vc.Pick(r, []string{"fail", "fail", "ok"}))
 			case x < 89:
-				evs = append(evs, fmt.Sprintf("%s %d", vc.Pick(r, []string{"exp", "exp", "del", "strip", "unexp"}), r.Intn(known+1)))
+				evs = append(evs, fmt.Sprintf("%s %d", vc.Pick(r, []string{"exp", "exp", "del", "strip", "unexp", "claim", "claim", "bind", "ext"}), r.Intn(known+1)))
 			case x < 92:
 				evs = append(evs, fmt.Sprintf("sec %d %s", r.Intn(known+1), vc.Pick(r, []string{"u", "d", "e", "l"})))
 			case x < 96: // a message on a connection the server does not know
@@ -1075,11 +1130,13 @@ func main() {
 		if *tier == "thorough" {
 			genExhaustive(4, add)
 			genExhaustiveUnusable(4, add)
+			genExhaustiveExpiry(5, add)
 			genRandom(r, 60000, add)
 			genLong(r, true, add)
 		} else {
 			genExhaustive(3, add)
 			genExhaustiveUnusable(3, add)
+			genExhaustiveExpiry(4, add)
 			genRandom(r, 12000, add)
 			genLong(r, false, add)
 		}
